@@ -50,6 +50,13 @@ def run(R, H, obl_fn, reset_obl=None, legal_only=False, depth=None, init=None, e
                     r2 = once(model, s_alt)
                     if r2 is not None and r2[0]:
                         return r2
+            # generic second stage: the same initial state with real PRNG keys (see common.key_variants)
+            if res is not None and not res[0]:
+                for i, s_alt in C.key_variants(jax.tree_util.tree_map(np.asarray, s0), int(__import__("os").environ.get("VERIF_STEP_KEYS", "256")) // 4):
+                    r2 = once(model, jax.tree_util.tree_map(jnp.asarray, s_alt))
+                    if r2 is not None and r2[0]:
+                        r2[1]["replay_mode"] = f"real-key search: initial state.key = PRNGKey({i})"
+                        return r2
             return res
 
         def once(model, s):
